@@ -16,7 +16,7 @@ from vmon import util
 PROPERTY = "C13"
 LEVEL = "exploration"
 RULE = ("trees chosen so the number of statistics N takes the values {1,2,3,4,5,7,9,11,12,13,16,17,23,29} (all residues mod D for every D in 1..8) "
-        "x representation {full, int16-quantised, compressed rank 1, eigh} x D in 1..8 (every D, exhaustive) x 4-step random histories, pmap; "
+        "x representation {full, int16-quantised, compressed rank 1, eigh, frequent-directions sketch, full/quantised with one leaf whose roots are always rejected} x D in 1..8 (every D, exhaustive) x 4-step random histories, pmap; "
         "sharded: same trees x D in 1..8.  evaluations = (tree, representation, D) runs; all are non-trivial for D>=2 (N mod D != 0 counted "
         "separately); distinct by (tree, representation, D, mode)")
 ASSUMPTIONS = ["host-platform CPU devices forced with --xla_force_host_platform_device_count=8 stand in for accelerators",
@@ -42,12 +42,12 @@ TREES = {
     23: {"a": [9, 6], "b": [6, 4], "c": [5, 4, 2], "d": [3]},
     29: {"a": [9, 6], "b": [9, 7], "c": [6, 4], "d": [2]},
 }
-REPS = ["full", "quant", "comp", "eigh"]
+REPS = ["full", "quant", "comp", "eigh", "fd", "full_reject", "quant_reject"]
 
 
 def shards(tier, seed):
   ns = [1, 2, 3, 5, 7, 12] if tier == "quick" else sorted(TREES)
-  reps = ["full", "quant", "comp"] if tier == "quick" else REPS
+  reps = ["full", "quant", "comp", "fd", "quant_reject"] if tier == "quick" else REPS
   items = [{"N": n, "rep": r, "mode": "pmap"} for n in ns for r in reps]
   items += [{"N": n, "rep": "full", "mode": "sharded"} for n in ns]
   out = []
@@ -79,6 +79,9 @@ def cfg_for(rep):
     c["block_size"] = 4
   if rep == "eigh":
     c["eigh"] = True
+  if rep == "fd":
+    # the sketch lives in the previous preconditioner, which every replica must take from its own slice
+    c.update(compression_rank=1, frequent_directions=True, reuse_preconditioner=True, beta2=0.9)
   return c
 
 
@@ -107,7 +110,10 @@ def leaf_policy(path):
 def close_abs(a, b, atol=1e-5):
   if a.shape != b.shape:
     return False
-  return bool(np.all(np.abs(a.astype(np.float64) - b.astype(np.float64)) <= atol))
+  a64, b64 = a.astype(np.float64), b.astype(np.float64)
+  same_nonfinite = (np.isnan(a64) & np.isnan(b64)) | ((a64 == b64) & ~np.isfinite(a64))
+  with np.errstate(invalid="ignore"):
+    return bool(np.all(same_nonfinite | (np.abs(a64 - b64) <= atol)))
 
 
 TOL = 2e-5
@@ -120,6 +126,13 @@ def close(a, b):
   if np.array_equal(a, b, equal_nan=True):
     return True, True
   a64, b64 = a.astype(np.float64), b.astype(np.float64)
+  nf = ~np.isfinite(a64) | ~np.isfinite(b64)
+  if np.any(nf):
+    # non-finite entries (overflowing statistics of the always-rejected leaf) must coincide exactly
+    same = (np.isnan(a64) & np.isnan(b64)) | (a64 == b64)
+    if not np.all(same[nf]):
+      return False, False
+    a64, b64 = np.where(nf, 0.0, a64), np.where(nf, 0.0, b64)
   sc = max(np.max(np.abs(b64)), 1e-30)
   dev = float(np.max(np.abs(a64 - b64)) / sc)
   if _REC[0] is not None:
@@ -130,11 +143,17 @@ def close(a, b):
 def run_pmap(item, seed, rec):
   tree = TREES[item["N"]]
   cfg = cfg_for(item["rep"])
-  mode = "pmapq" if item["rep"] == "quant" else "pmap"
+  mode = "pmapq" if item["rep"].startswith("quant") else "pmap"
   T = 4
   rng = np.random.default_rng([seed, item["N"]])
   params = {k: rng.standard_normal(tuple(s)).astype(np.float32) for k, s in tree.items()}
   hist = [{k: rng.standard_normal(tuple(s)).astype(np.float32) for k, s in tree.items()} for _ in range(T)]
+  if item["rep"].endswith("_reject"):
+    # the first leaf's statistics overflow (deterministically rejected roots: it must keep its old preconditioners),
+    # all other leaves are accepted: a gate applied to the wrong statistic shows as a difference between device counts
+    k0 = sorted(tree)[0]
+    for g in hist:
+      g[k0] = (g[k0] * 1e25).astype(np.float32)
   base_u, base_s = None, None
   for D in range(1, 9):
     wit = dict(item, D=D, seed=seed)
